@@ -7,7 +7,7 @@ class Ctx:
     cur = None
     def __init__(self):
         self.solver = z3.Solver()
-        import ir as _ir; self.solver.add(*_ir.DOMAIN)
+        import ir as _ir; _ir.DOMAIN.clear()
         self.prefix = []      # list of [decision(bool), flipped(bool)]
         self.pos = 0
         self.nq = 0
